@@ -61,7 +61,10 @@ func (f *Frame) callCommon(c *ssa.CallCommon, args []*Value, fnVal *Value, instr
 			return f.applyContract(fc, key, nil, c.Signature(), args, nil, pos)
 		}
 	}
-	// field-held function values (e.g. lr.cancel): contract by signature name "dyn:<desc>"
+	// any other dynamic call in this function: contract "<function>:dyn" if present
+	if fc := e.ct.Funcs[e.qual(f.fn)+":dyn"]; fc != nil {
+		return f.applyContract(fc, e.qual(f.fn)+":dyn", nil, c.Signature(), args, nil, pos)
+	}
 	e.note(fmt.Sprintf("%s: call through function value %s: everything havocked", e.qual(f.fn), c.Value.Name()))
 	return f.havocCall(c, pos)
 }
